@@ -20,8 +20,8 @@ HdrQStr == Rng(Hdr.qstr)
 HdrBadJs == Rng(Hdr.badjs)
 HdrMax == Hdr.max
 
-VARIABLES mem, ro, l
-vars == <<mem, ro, l>>
+VARIABLES mem, ro, impl, l
+vars == <<mem, ro, impl, l>>
 
 OpOf(e) == [op |-> e.op, loc |-> e.loc, id |-> e.id, rid |-> e.rid, val |-> Norm(e.val),
             inh |-> e.inh, wk |-> e.wk, rk |-> e.rk, now |-> e.now, flag |-> e.flag,
@@ -46,11 +46,12 @@ FreshOk(op, lr) ==
   (op.op \in {"AddFact", "AddRule"} /\ op.id = "" /\ lr.c = "ok" /\ BangKeys(op.val) = {})
      => op.rid \notin DOMAIN mem[op.loc]
 
-Init == l = 2 /\ mem = <<>> /\ ro = <<>>
+Init == l = 2 /\ mem = <<>> /\ ro = <<>> /\ impl = ""
 
 Reset(e) ==
   /\ mem' = [a \in Rng(e.locs) |-> <<>>]
   /\ ro' = [a \in Rng(e.locs) |-> FALSE]
+  /\ impl' = e.state
 
 \* the outcomes the specification allows that agree with the logged line
 Explained(e) ==
@@ -79,29 +80,44 @@ NextReset(i) ==
 Accept(e) ==
   /\ Explained(e) # {}
   /\ \E o \in Explained(e) : mem' = o.mem /\ ro' = o.ro
-  /\ l' = l + 1
+  /\ l' = l + 1 /\ UNCHANGED impl
+
+\* outcomes that only a named deviation (a recorded defect) explains
+ExplainedDev(e) ==
+  LET op == OpOf(e)
+      disk == [a \in DOMAIN mem |-> Rng(e.disk[a])]
+      G == [a \in DOMAIN mem |-> ExpiredIds(mem[a], op.now) \ disk[a]]
+  IN {o \in DevStep(mem, ro, op, G, impl) :
+        RespMatch(op, o.resp, e.res) /\ \A a \in DOMAIN mem : DOMAIN o.mem[a] = disk[a]}
+
+AcceptDev(e) ==
+  /\ Explained(e) = {} /\ ExplainedDev(e) # {}
+  /\ \E o \in ExplainedDev(e) : /\ mem' = o.mem /\ ro' = o.ro
+                                 /\ TLCSet(3, TLCGet(3) \cup {<<l, o.dev>>})
+  /\ l' = l + 1 /\ UNCHANGED impl
 
 \* a line nothing explains: report it and go on with the next trace
 Reject(e) ==
-  /\ Explained(e) = {}
+  /\ Explained(e) = {} /\ ExplainedDev(e) = {}
   /\ PrintT(<<"REJECT", l, Expected(e)>>)
   /\ TLCSet(2, TLCGet(2) \cup {l})
-  /\ mem' = <<>> /\ ro' = <<>>
+  /\ mem' = <<>> /\ ro' = <<>> /\ impl' = ""
   /\ l' = NextReset(l)
 
 Next ==
   /\ l <= Len(Trace)
   /\ \/ Trace[l].ev = "reset" /\ Reset(Trace[l]) /\ l' = l + 1
      \/ Trace[l].ev = "op" /\ Accept(Trace[l])
+     \/ Trace[l].ev = "op" /\ AcceptDev(Trace[l])
      \/ Trace[l].ev = "op" /\ Reject(Trace[l])
 
 Spec == Init /\ [][Next]_vars
 
 \* acceptance: the whole file was consumed (high-water mark of l)
-ASSUME TLCSet(1, 0) /\ TLCSet(2, {})
+ASSUME TLCSet(1, 0) /\ TLCSet(2, {}) /\ TLCSet(3, {})
 Mark == TLCSet(1, IF TLCGet(1) < l THEN l ELSE TLCGet(1))
 Accepted ==
-  /\ PrintT(<<"CONSUMED", TLCGet(1) - 1, "OF", Len(Trace), "REJECTED", TLCGet(2)>>)
+  /\ PrintT(<<"CONSUMED", TLCGet(1) - 1, "OF", Len(Trace), "REJECTED", TLCGet(2), "DEVIATIONS", TLCGet(3)>>)
   /\ TLCGet(1) = Len(Trace) + 1
   /\ TLCGet(2) = {}
 =============================================================================
